@@ -124,6 +124,10 @@ class CG:
                 v = True
             else:
                 txt, v = pp_expr(r, r.randrange(0, 3), None)
+                if (taken or not live) and r.random() < 0.3:
+                    # not evaluated once an earlier group of the chain was taken (or inside a skipped group): may be anything
+                    txt, v = r.choice(['1/0', 'NOT_A_MACRO(3)', '(', '1 +', '2 % (1 - 1)', '__COUNTER__ + 1 +', 'defined', '0x', "'", '1 ? 2']), 0
+                    self.feats.add('unevaluable-elif-after-taken-branch')
                 lines.append('#elif ' + txt)
                 self.feats.add('elif')
                 if taken:
@@ -174,7 +178,7 @@ def incl_case(rng, root):
         for nm in names:
             if rng.random() < 0.65 or d == 'after':
                 lines = []
-                style = rng.choice(['plain', 'guard', 'guard', 'pragma-once', 'guard-trailing-text', 'guard-else', 'guard-elif', 'guard-inner-cond', 'guard-undef', 'guard-not-first'])
+                style = rng.choice(['plain', 'guard', 'guard', 'pragma-once', 'guard-trailing-text', 'guard-else', 'guard-elif', 'guard-inner-cond', 'guard-undef', 'guard-not-first', 'pragma-once-after-line'])
                 gname = 'G_%s_%s' % (d.upper(), nm.replace('.', '_').upper())
                 body = [mark('%s/%s' % (d, nm))]
                 if rng.random() < 0.35:
@@ -196,6 +200,11 @@ def incl_case(rng, root):
                 elif style == 'pragma-once':
                     lines = ['#pragma once'] + body
                     feats.add('pragma-once')
+                elif style == 'pragma-once-after-line':
+                    # generated headers: a #line directive renames the file before #pragma once; the pragma still applies to the real file
+                    other = rng.choice(names)
+                    lines = [rng.choice(['#line 100 "gen_%s"' % nm, '# 7 "%s"' % other, '#line 5 "./%s"' % other]), '#pragma once'] + body
+                    feats.add('pragma-once-after-line-directive')
                 elif style == 'guard-trailing-text':
                     lines = ['#ifndef ' + gname, '#define ' + gname] + body + ['#endif', mark('%s/%s_after_endif' % (d, nm))]
                     feats.add('guard-with-trailing-text')
@@ -260,7 +269,16 @@ def incl_case(rng, root):
     for _ in range(rng.randrange(0, 4)):
         nm = rng.choice(['OPT_A', 'OPT_B'])
         if rng.random() < 0.65:
-            dopts.append('-D%s=%d' % (nm, rng.randrange(1, 99)) if rng.random() < 0.7 else '-D' + nm)
+            x = rng.random()
+            if x < 0.55:
+                dopts.append('-D%s=%d' % (nm, rng.randrange(1, 99)))
+            elif x < 0.7:
+                dopts.append('-D' + nm)
+            else:
+                # the name ends at the first '=': the replacement list may contain more of them, be empty, or be given as a separate word
+                v = rng.choice(['(3==3)', 'p=q', '"k=v"', '', '==', '1 = 2 = 3'])
+                dopts += rng.choice([['-D%s=%s' % (nm, v)], ['-D', '%s=%s' % (nm, v)]])
+                feats.add('-D value with =')
         else:
             dopts.append('-U' + nm)
     if len(dopts) > 1:
@@ -269,7 +287,11 @@ def incl_case(rng, root):
         k = rng.choice([k for k in content if len(k) == 2])
         opts += ['-include', os.path.join(root, k[0], k[1])]
         feats.add('-include')
-    opts = dopts[:len(dopts) // 2] + opts + dopts[len(dopts) // 2:]
+    # keep "-D" "NAME=V" pairs together when the option list is split around the -I options
+    h = len(dopts) // 2
+    if h and dopts[h - 1] == '-D':
+        h += 1
+    opts = dopts[:h] + opts + dopts[h:]
     return os.path.join(root, 'src', 'main.c'), opts, feats
 
 
